@@ -1,3 +1,5 @@
 import Driver.Util
 import Driver.SemDrv
+import Driver.LatchDrv
+import Driver.OnceDrv
 import Driver.Main
